@@ -736,3 +736,66 @@ class EngineTyper:
         if x.config.get('name') == 'MatrixFilterPartitions':      # MatrixFilterPartitions.typ(childType) = childType
             return self.child(x.child)
         raise NotTranscribed('function ' + str(x.config.get('name')))
+
+
+# ---------------------------------------------------------------------------------------------------------------------
+# Primitive operators of VALUE IR: an ABSOLUTE reference transcribed from the engine
+#   hail/hail/src/is/hail/expr/ir/UnaryOp.scala        (object UnaryOp: returnType, fromString)
+#   hail/hail/src/is/hail/expr/ir/BinaryOp.scala       (object BinaryOp: returnType, fromString)
+#   hail/hail/src/is/hail/expr/ir/ComparisonOp.scala   (checkCompatible, fromString) + InferType / TypeCheck (Compare => TInt32, else TBoolean)
+# The Python IR node's own `_compute_type` is the code under test here, not the reference.
+# ---------------------------------------------------------------------------------------------------------------------
+UNARY_OPS = {'-': 'Negate', 'Negate': 'Negate', '!': 'Bang', 'Bang': 'Bang', '~': 'BitNot', 'BitNot': 'BitNot', 'BitCount': 'BitCount'}
+BINARY_OPS = {'+': 'Add', 'Add': 'Add', '-': 'Subtract', 'Subtract': 'Subtract', '*': 'Multiply', 'Multiply': 'Multiply',
+              '/': 'FloatingPointDivide', 'FloatingPointDivide': 'FloatingPointDivide', '//': 'RoundToNegInfDivide', 'RoundToNegInfDivide': 'RoundToNegInfDivide',
+              '|': 'BitOr', 'BitOr': 'BitOr', '&': 'BitAnd', 'BitAnd': 'BitAnd', '^': 'BitXOr', 'BitXOr': 'BitXOr',
+              '<<': 'LeftShift', 'LeftShift': 'LeftShift', '>>': 'RightShift', 'RightShift': 'RightShift', '>>>': 'LogicalRightShift', 'LogicalRightShift': 'LogicalRightShift'}
+COMPARISON_OPS = {'==': 'EQ', 'EQ': 'EQ', '!=': 'NEQ', 'NEQ': 'NEQ', '>=': 'GTEQ', 'GTEQ': 'GTEQ', '<=': 'LTEQ', 'LTEQ': 'LTEQ', '>': 'GT', 'GT': 'GT',
+                  '<': 'LT', 'LT': 'LT', 'Compare': 'Compare'}
+
+
+def unary_prim_type(hl, op, t):
+    """UnaryOp.getReturnType(op, t); EngineRejects where the engine throws ("Cannot apply $op to values of type $t") or does not parse the op"""
+    o = UNARY_OPS.get(op)
+    if o is None:
+        raise EngineRejects(f'unknown unary operator {op!r}')
+    num, ints = (hl.tint32, hl.tint64, hl.tfloat32, hl.tfloat64), (hl.tint32, hl.tint64)
+    if o == 'Negate' and t in num:          # case (Negate, t @ (TInt32 | TInt64 | TFloat32 | TFloat64)) => t
+        return t
+    if o == 'Bang' and t == hl.tbool:       # case (Bang, TBoolean) => TBoolean
+        return hl.tbool
+    if o == 'BitNot' and t in ints:         # case (BitNot, t @ (TInt32 | TInt64)) => t
+        return t
+    if o == 'BitCount' and t in ints:       # case (BitCount, TInt32 | TInt64) => TInt32
+        return hl.tint32
+    raise EngineRejects(f'Cannot apply {o} to values of type {t}')
+
+
+def binary_prim_type(hl, op, l, r):
+    """BinaryOp.getReturnType(op, l, r)"""
+    o = BINARY_OPS.get(op)
+    if o is None:
+        raise EngineRejects(f'unknown binary operator {op!r}')
+    ints, floats = (hl.tint32, hl.tint64), (hl.tfloat32, hl.tfloat64)
+    if o == 'FloatingPointDivide' and l == r:
+        if l in ints:                       # (FloatingPointDivide(), TInt32, TInt32) => TFloat64 ; TInt64 likewise
+            return hl.tfloat64
+        if l in floats:                     # TFloat32 => TFloat32 ; TFloat64 => TFloat64
+            return l
+    if o in ('Add', 'Subtract', 'Multiply', 'RoundToNegInfDivide') and l == r and l in ints + floats:
+        return l
+    if o in ('BitAnd', 'BitOr', 'BitXOr') and l == r and l in ints:
+        return l
+    if o in ('LeftShift', 'RightShift', 'LogicalRightShift') and l in ints and r == hl.tint32:   # (.., t @ (TInt32 | TInt64), TInt32) => t
+        return l
+    raise EngineRejects(f'Cannot apply {o} to {l} and {r}')
+
+
+def comparison_type(hl, op, l, r):
+    """ComparisonOp.checkCompatible(l, r) (lt != rt throws); InferType: Compare => TInt32, every other comparison => TBoolean"""
+    o = COMPARISON_OPS.get(op)
+    if o is None:
+        raise EngineRejects(f'unknown comparison operator {op!r}')
+    if canon(hl, l) != canon(hl, r):
+        raise EngineRejects(f'Cannot compare types {l} and {r}')
+    return hl.tint32 if o == 'Compare' else hl.tbool
